@@ -19,41 +19,40 @@ open Xsel Arena Xsel.StoreL
 /-- `exec_refines_spec` without the hypothesis `hsv` -/
 theorem exec_refines_spec' (a : Arena) (h : wfb a = true)
     (env : Env) (henv : EnvOk a env) (e : Expr) (ca : Bool)
-    (hs : sumSafe ca e = true) (hb : prefixesBound env e = true)
+    (hs : sumSafe ca e = true)
     (c c' : Ctx) (hc : Ctx.Equiv c c') (hok : Val.Ok a c.result)
     (hasc : ca = true → Val.Asc c.result ∧ Val.Asc c'.result)
     (ha : c.a = a) (he : c.env = env) :
     Res.Equiv (eval Model.sem e c) (eval Spec.semKF e c') :=
-  Xsel.exec_refines_spec a h (fun i _ => Strval.strval_refines' h i) env henv e ca hs hb c c' hc hok
+  Xsel.exec_refines_spec a h (fun i _ => Strval.strval_refines' h i) env henv e ca hs c c' hc hok
     hasc ha he
 
 /-- **run_refines_spec'** — on every arena that satisfies the Cursor contract, `exec.Exec` from a
     start node returns what the XPath 1.0 specification (with the recorded `round` deviation)
     returns, up to the listing order of a node-set; or both fail. -/
 theorem run_refines_spec' (a : Arena) (h : wfb a = true) (env : Env) (henv : EnvOk a env)
-    (e : Expr) (start : Nat) (hs : start < a.size) (hsum : sumSafe true e = true)
-    (hb : prefixesBound env e = true) :
+    (e : Expr) (start : Nat) (hs : start < a.size) (hsum : sumSafe true e = true) :
     Res.Equiv (Model.run a env start e) (Spec.runKF a env start e) :=
-  Xsel.run_refines_spec a h (fun i _ => Strval.strval_refines' h i) env henv start hs e hsum hb
+  Xsel.run_refines_spec a h (fun i _ => Strval.strval_refines' h i) env henv start hs e hsum
 
 /-! ### 10. chained with the store and the adapters -/
 
 /-- a query on the tree the store builds for a stream that honours the Parser contract -/
 theorem stream_query_refines_spec (evs : List Ev) (ho : Ordered evs)
     (env : Env) (henv : EnvOk (Store.build evs) env) (e : Expr)
-    (hsum : sumSafe true e = true) (hb : prefixesBound env e = true) :
+    (hsum : sumSafe true e = true) :
     wfb (Store.build evs) = true ∧
     Res.Equiv (Model.run (Store.build evs) env 0 e) (Spec.runKF (Store.build evs) env 0 e) :=
   have h := build_wf_of_ordered ho
-  ⟨h, run_refines_spec' _ h env henv e 0 (build_size_pos evs) hsum hb⟩
+  ⟨h, run_refines_spec' _ h env henv e 0 (build_size_pos evs) hsum⟩
 
 /-- the same from any start node of the tree -/
 theorem stream_query_refines_spec_at (evs : List Ev) (ho : Ordered evs)
     (env : Env) (henv : EnvOk (Store.build evs) env) (e : Expr) (start : Nat)
     (hstart : start < (Store.build evs).size)
-    (hsum : sumSafe true e = true) (hb : prefixesBound env e = true) :
+    (hsum : sumSafe true e = true) :
     Res.Equiv (Model.run (Store.build evs) env start e) (Spec.runKF (Store.build evs) env start e) :=
-  run_refines_spec' _ (build_wf_of_ordered ho) env henv e start hstart hsum hb
+  run_refines_spec' _ (build_wf_of_ordered ho) env henv e start hstart hsum
 
 /-- the event stream ReadXml feeds the store for a well-formed document is `Ordered` -/
 theorem xml_events_ordered (top : Xml.XNodes) (h : XmlL.WFDoc top) :
@@ -64,11 +63,11 @@ theorem xml_events_ordered (top : Xml.XNodes) (h : XmlL.WFDoc top) :
     namespace-conformant document evaluates as the XPath 1.0 specification says. -/
 theorem xml_query_refines_spec (top : Xml.XNodes) (h : XmlL.WFDoc top)
     (env : Env) (henv : EnvOk (Store.build (Xml.events (Xml.docTokens top))) env) (e : Expr)
-    (hsum : sumSafe true e = true) (hb : prefixesBound env e = true) :
+    (hsum : sumSafe true e = true) :
     wfb (Store.build (Xml.events (Xml.docTokens top))) = true ∧
     Res.Equiv (Model.run (Store.build (Xml.events (Xml.docTokens top))) env 0 e)
       (Spec.runKF (Store.build (Xml.events (Xml.docTokens top))) env 0 e) :=
-  stream_query_refines_spec _ (xml_events_ordered top h) env henv e hsum hb
+  stream_query_refines_spec _ (xml_events_ordered top h) env henv e hsum
 
 /-! #### JSON: the documented event lists contain no namespace or attribute event -/
 
@@ -128,12 +127,12 @@ theorem json_events_ordered (vs : List JVal) : Ordered (vs.flatMap Json.eventsOf
     says. -/
 theorem json_query_refines_spec (vs : List JVal)
     (env : Env) (henv : EnvOk (Store.build (vs.flatMap Json.eventsOf)) env) (e : Expr)
-    (hsum : sumSafe true e = true) (hb : prefixesBound env e = true) :
+    (hsum : sumSafe true e = true) :
     Json.adapter (vs.flatMap Json.tokensOf) = some (vs.flatMap Json.eventsOf) ∧
     wfb (Store.build (vs.flatMap Json.eventsOf)) = true ∧
     Res.Equiv (Model.run (Store.build (vs.flatMap Json.eventsOf)) env 0 e)
       (Spec.runKF (Store.build (vs.flatMap Json.eventsOf)) env 0 e) :=
-  ⟨Json.json_refines vs, stream_query_refines_spec _ (json_events_ordered vs) env henv e hsum hb⟩
+  ⟨Json.json_refines vs, stream_query_refines_spec _ (json_events_ordered vs) env henv e hsum⟩
 
 /-! ### 11. expressions without `round`/`substring`: the unmodified specification -/
 
@@ -289,28 +288,29 @@ theorem runKF_eq_run_of_noRound (a : Arena) (env : Env) (start : Nat) (e : Expr)
     specification itself (`Spec.sem`, no known finding involved) -/
 theorem run_refines_spec_noRound (a : Arena) (h : wfb a = true) (env : Env) (henv : EnvOk a env)
     (e : Expr) (start : Nat) (hs : start < a.size) (hsum : sumSafe true e = true)
-    (hb : prefixesBound env e = true) (hnr : noRound e = true) :
+    (hnr : noRound e = true) :
     Res.Equiv (Model.run a env start e) (Spec.run a env start e) := by
   rw [← runKF_eq_run_of_noRound a env start e hnr]
-  exact run_refines_spec' a h env henv e start hs hsum hb
+  exact run_refines_spec' a h env henv e start hs hsum
 
 theorem xml_query_refines_spec_noRound (top : Xml.XNodes) (h : XmlL.WFDoc top)
     (env : Env) (henv : EnvOk (Store.build (Xml.events (Xml.docTokens top))) env) (e : Expr)
-    (hsum : sumSafe true e = true) (hb : prefixesBound env e = true) (hnr : noRound e = true) :
+    (hsum : sumSafe true e = true) (hnr : noRound e = true) :
     Res.Equiv (Model.run (Store.build (Xml.events (Xml.docTokens top))) env 0 e)
       (Spec.run (Store.build (Xml.events (Xml.docTokens top))) env 0 e) := by
   rw [← runKF_eq_run_of_noRound _ env 0 e hnr]
-  exact (xml_query_refines_spec top h env henv e hsum hb).2
+  exact (xml_query_refines_spec top h env henv e hsum).2
 
 theorem json_query_refines_spec_noRound (vs : List JVal)
     (env : Env) (henv : EnvOk (Store.build (vs.flatMap Json.eventsOf)) env) (e : Expr)
-    (hsum : sumSafe true e = true) (hb : prefixesBound env e = true) (hnr : noRound e = true) :
+    (hsum : sumSafe true e = true) (hnr : noRound e = true) :
     Res.Equiv (Model.run (Store.build (vs.flatMap Json.eventsOf)) env 0 e)
       (Spec.run (Store.build (vs.flatMap Json.eventsOf)) env 0 e) := by
   rw [← runKF_eq_run_of_noRound _ env 0 e hnr]
-  exact (json_query_refines_spec vs env henv e hsum hb).2.2
+  exact (json_query_refines_spec vs env henv e hsum).2.2
 
-/-- non-vacuity: `//a[position() = 2]/b[last()]` satisfies all three side conditions -/
+/-- non-vacuity: `//a[position() = 2]/b[last()]` satisfies `noRound` (and, having no `sum` or
+    `lang`, `sumSafe`) -/
 example : noRound
     (.step (.step (.step .root .descendantOrSelf .node .nil) .child (.name "a".toList)
       (.cons (.bin (.cmp .eq) (.call .ctx none "position".toList .nil) (.num (Num.ofNat 2))) .nil))
